@@ -322,21 +322,31 @@ def harnesses(tier: str) -> List[H]:
     base.update({"t0": True, "t1": True, "t2": True, "top": 0, "fuel": 0})
     # 1. conditions calling functions (no body calls): all graphs with <= 1 (quick) / 2 (thorough) calls per condition
     if tier == "quick":
-        params = [I("top", 0, 2), E("e0"), E("e2"), E("e4"), E("e1"), B("t0"), B("t1"), B("t2")]
-        out.append(H("graph_conditions", bind(run_graph, (False,), ALL, dict(base), [p.name for p in params]), params,
-                     tiers=(tier,), timeout=900,
-                     family="3 contracted functions; each precondition calls one function (or none), f0's calls two; "
-                            "truth of each condition symbolic", family_size=4 ** 4 * 3))
-        params = [I("fuel", 1, 2), E("e0"), E("e2"), E("b0"), E("b2"), E("b1"), B("t1")]
-        d = dict(base)
-        out.append(H("graph_bodies", bind(run_graph, (False,), ALL, d, [p.name for p in params]), params, tiers=(tier,),
-                     timeout=900,
-                     family="bodies of f0/f1 call functions too (fuel-bounded); recursive calls made by a body must be "
-                            "checked", family_size=4 ** 5 * 2))
-        params = [I("top", 0, 1), E("e0"), E("e2"), E("p0"), E("p1"), E("b0"), I("fuel", 0, 1)]
-        out.append(H("graph_post", bind(run_graph, (True,), ALL, dict(base), [p.name for p in params]), params,
-                     tiers=(tier,), timeout=900,
-                     family="functions with pre- and postconditions, both calling functions", family_size=4 ** 5 * 4))
+        for v in range(-1, N):
+            sfx = "_%s" % ("n" if v < 0 else v)
+            params = [I("top", 0, 2), E("e2"), E("e4"), E("e1"), B("t0"), B("t1"), B("t2")]
+            d = dict(base)
+            d["e0"] = v
+            out.append(H("graph_conditions" + sfx, bind(run_graph, (False,), ALL, d, [p.name for p in params]), params,
+                         tiers=(tier,), timeout=900,
+                         family="3 contracted functions; each precondition calls one function (or none), f0's calls two "
+                                "(first callee of f0's precondition: %d); truth of each condition symbolic" % v,
+                         family_size=4 ** 3 * 3))
+            params = [I("fuel", 1, 2), E("e0"), E("e2"), E("b2"), E("b1"), B("t1")]
+            d = dict(base)
+            d["b0"] = v
+            out.append(H("graph_bodies" + sfx, bind(run_graph, (False,), ALL, d, [p.name for p in params]), params,
+                         tiers=(tier,), timeout=900,
+                         family="bodies of f0/f1 call functions too (fuel-bounded; first callee of f0's body: %d); "
+                                "recursive calls made by a body must be checked" % v, family_size=4 ** 4 * 2))
+            params = [I("top", 0, 1), E("e2"), E("p0"), E("p1"), E("b0")]
+            d = dict(base)
+            d["e0"] = v
+            d["fuel"] = 1
+            out.append(H("graph_post" + sfx, bind(run_graph, (True,), ALL, d, [p.name for p in params]), params,
+                         tiers=(tier,), timeout=900,
+                         family="functions with pre- and postconditions, both calling functions (first callee of f0's "
+                                "precondition: %d)" % v, family_size=4 ** 4 * 2))
     else:
         for top in range(3):
             params = [E("e0"), E("e1"), E("e2"), E("e3"), E("e4"), E("e5"), B("t0"), B("t1"), B("t2")]
